@@ -342,8 +342,15 @@ def run(pid, tier, seed, a):
     evidence["wall_s"] = round(time.time() - t0, 1)
     for kf in known_hits:
         print(f"KNOWN-FINDING: property={pid} {kf['what']}")
+    summary = {}
     for s in samples:
-        print(f"[{pid}] {s['target']:<28} {s['block']:<5} {s['kind']:<8} z3={s['z3']:<6} cvc5={s['cvc5']:<6} reach={s['path_reachable']} {s['obligation'][:70]}")
+        if s["z3"] == "unsat" and s["cvc5"] == "unsat":
+            k = (s["target"], s["kind"])
+            summary[k] = summary.get(k, 0) + 1
+        else:
+            print(f"[{pid}] {s['target']:<28} {s['block']:<5} {s['kind']:<8} z3={s['z3']:<6} cvc5={s['cvc5']:<6} reach={s['path_reachable']} {s['obligation'][:90]}")
+    for (t, k), n in summary.items():
+        print(f"[{pid}] {t:<28} {k:<8} {n} obligations unsat in z3 and cvc5")
     if violations:
         for ob, rp in violations:
             print(f"  violated: {ob['target']} {ob['block']}: {ob['msg']}  witness={rp.get('member')}")
